@@ -276,9 +276,9 @@ def parts(tier):
     xh.xh_preamble = XH_PREAMBLE
     q = tier == 'quick'
     return [
-        Part('line-stream', make_line_harness(4 if q else 6, 2 if q else 3), bounds={'tokens': [repr(t) for t in TOKENS], 'max_tokens': 4 if q else 6, 'cuts': '0..%d z3 Ints' % (2 if q else 3)},
+        Part('line-stream', make_line_harness(4 if q else 5, 2), bounds={'tokens': [repr(t) for t in TOKENS], 'max_tokens': 4 if q else 5, 'cuts': '0..2 z3 Ints'},
              encoded=ENC_L, budget_s=85 if q else 1500),
-        Part('line-server', make_server_harness(2 if q else 3), bounds={'sockets': 2, 'tokens_per_socket': 2 if q else 3, 'delivery': 'byte at a time, every interleaving'},
+        Part('line-server', make_server_harness(2), bounds={'sockets': 2, 'tokens_per_socket': 2, 'delivery': 'byte at a time, every interleaving'},
              encoded=ENC_L, budget_s=85 if q else 1500),
         Part('irc-constructors', make_irc_harness(3 if q else 4), bounds={'constructors': [c[0] for c in CONSTRUCTORS], 'argument_alphabet': [repr(a) for a in ARGS], 'max_arity': 3 if q else 4},
              encoded=ENC_I, budget_s=85 if q else 1500),
